@@ -74,15 +74,17 @@ def _call_case(L, case, order_seed):
     keys = list(kwargs.keys())
     random.Random(order_seed).shuffle(keys)
     kw = {k: kwargs[k] for k in keys}
-    if case["fn"].startswith("K29."):
-        obj = L.K29(case["self"])
+    obj = None
+    if "self" in case:
+        cname, cargs = case["self"]
+        obj = getattr(L, cname)(*copy.deepcopy(cargs))
         fn = getattr(obj, case["fn"].split(".")[1])
     else:
         fn = getattr(L, case["fn"])
-    return fn, list(case["args"]), kw
+    return fn, list(case["args"]), kw, obj
 
 
-def check_message(L, case, kw, msg):
+def check_message(L, case, kw, msg, selfobj=None):
     """R2-R4 on one message; returns list of (rule, classifier, detail)."""
     out = []
     lines = msg.split("\n")
@@ -92,8 +94,8 @@ def check_message(L, case, kw, msg):
     if keys != sorted(keys):
         out.append(("C20.R2", "lines-not-sorted", {"case": case["id"], "keys": keys}))
     # R3
-    if case["fn"].startswith("K29."):
-        target = getattr(L.K29, case["fn"].split(".")[1])
+    if "self" in case:
+        target = getattr(getattr(L, case["self"][0]), case["fn"].split(".")[1])
     else:
         target = getattr(L, case["fn"])
     raw = target
@@ -115,6 +117,8 @@ def check_message(L, case, kw, msg):
             named[pos[i]] = v
     for k, v in kw.items():
         named.setdefault(k, v)
+    if selfobj is not None:
+        named["self"] = selfobj  # rendered in its state at message time (the harness holds the same object)
     hidden = set(case.get("hidden") or ())
     for name, value in named.items():
         m = re.search(r"(?:^|\n|: )%s was (.*)$" % re.escape(name), msg, re.M)
@@ -278,9 +282,11 @@ def run_history(L, h, by_id):
                 pass
             return
         case = by_id[st["case"]]
-        fn, args, kw = _call_case(L, case, st["order"])
+        fn, args, kw, selfobj = _call_case(L, case, st["order"])
+        if selfobj is not None:
+            kw = dict(kw, __self__=selfobj)
         try:
-            r = fn(*args, **kw)
+            r = fn(*args, **{k: v for k, v in kw.items() if k != "__self__"})
             if inspect.iscoroutine(r):
                 import corodriver
 
@@ -296,7 +302,7 @@ def run_history(L, h, by_id):
     async def async_step(st):
         if st["k"] == "case" and by_id[st["case"]].get("async"):
             case = by_id[st["case"]]
-            fn, args, kw = _call_case(L, case, st["order"])
+            fn, args, kw, selfobj = _call_case(L, case, st["order"])
             try:
                 await fn(*args, **kw)
                 results.append((case["id"], st["order"], ("no-violation", None), kw))
@@ -389,6 +395,7 @@ def worker(argv):
             if not isinstance(msg, str):
                 violations.append({"rule": "C20.R1", "classifier": "no-message:%s" % msg[0], "detail": {"case": cid, "outcome": msg, "history": hi, "engine": h["engine"]}, "widx": widx, "history": hi})
                 continue
+            selfobj = kw.pop("__self__", None) if isinstance(kw, dict) else None
             compared.setdefault(cid, set()).add((tuple(kw.keys()), h["engine"]))
             if cid not in first:
                 first[cid] = (msg, hi, h["engine"])
@@ -402,7 +409,7 @@ def worker(argv):
                         "history": hi,
                     }
                 )
-            for rule, cl, det in check_message(L, case, kw, msg):
+            for rule, cl, det in check_message(L, case, kw, msg, selfobj):
                 violations.append({"rule": rule, "classifier": cl, "detail": det, "widx": widx, "history": hi})
     seen = set()
     uniq = []
